@@ -4,6 +4,7 @@
 package aml
 
 import (
+	"bytes"
 	"fmt"
 	"io/ioutil"
 	"os"
@@ -719,7 +720,7 @@ func c12FollowProgram() []byte {
 func TestVerifC12(t *testing.T) {
 	run := vlib.Start(t, "C12")
 	defer run.Finish()
-	run.SetRule("inputs = structure-aware mutations (truncation by offset class, bit flips, opcode-alphabet substitution, package-length and field-width corruption in all four encodings, name-string duplication/self/ancestor references, splices between programs, operand deletion/duplication, snippet insertion, field-element corruption; 1-3 per input, placed by a tolerant structure scanner) of the three shipped tables, of ~40 hand-assembled programs and of programs from an opcode-table-driven generator (+ any source registered in c12ExtraSources), plus unmutated generated programs and random short strings; 35% are parsed into a tree that already holds one or two good tables; non-trivial = the parser created >= 3 objects from the input before accepting or rejecting it (hand programs only when mutated); distinct = distinct (payload bytes, prelude)")
+	run.SetRule("inputs = structure-aware mutations (truncation by offset class, bit flips, opcode-alphabet substitution, package-length and field-width corruption in all four encodings, name-string duplication/self/ancestor references, splices between programs, operand deletion/duplication, snippet insertion, field-element corruption; 1-3 per input, placed by a tolerant structure scanner) of the three shipped tables, of ~40 hand-assembled programs and of programs from an opcode-table-driven generator (+ any source registered in c12ExtraSources), plus unmutated generated programs and random short strings; 43% are parsed into a tree that already holds one or two good tables (one of them a table of Scope directives whose merging leaves two dozen recycled slots on the free list); non-trivial = the parser created >= 3 objects from the input before accepting or rejecting it (hand programs only when mutated); distinct = distinct (payload bytes, prelude)")
 	run.Assume("the table header is trusted (Length = header + payload; a few inputs use a Length below the header size); tables larger than 64 KiB are not generated")
 	run.Assume("goroutine stacks of " + fmt.Sprint(c12StackAlarm>>20) + " MiB are enough for any recursion whose depth is linear in a 64 KiB input; passing that mark (or the runtime's limit of " + fmt.Sprint(c12MaxStack>>20) + " MiB) is reported as stack overflow")
 	run.Assume("wall clock is used only by the watchdog (2 s + 1 ms/byte; a firing is re-run alone with 20x before vcheck reports it)")
@@ -752,6 +753,10 @@ func TestVerifC12(t *testing.T) {
 		{"testsuite", [][]byte{c12Shipped[2].payload}},
 		{"DSDT", [][]byte{c12Shipped[0].payload}},
 		{"DSDT+SSDT", [][]byte{c12Shipped[0].payload, c12Shipped[1].payload}},
+		// a table of Scope directives that are merged into \_SB_ and freed: the free list of the tree then
+		// holds two dozen slots that carried name strings of that table (seeded round 15: whatever a slot
+		// held in its previous life must not show in the object made from it for a later table)
+		{"library+scopes", [][]byte{c12BuildTable(c12Lib(), "DSDT"), c12BuildTable(bytes.Repeat([]byte{0x10, 0x06, '\\', '_', 'S', 'B', '_'}, 24), "SSDT")}},
 	} {
 		p, err := c12MakePrelude(spec.name, spec.tables)
 		if err != nil {
@@ -812,8 +817,10 @@ func TestVerifC12(t *testing.T) {
 		r2 := r.Fork(2)
 		in.tail = r2.Chance(3, 4)
 		switch x := r2.Intn(100); {
-		case x < 65:
+		case x < 57:
 			in.prelude = 0
+		case x < 65:
+			in.prelude = 5
 		case x < 83:
 			in.prelude = 1
 		case x < 93:
